@@ -740,6 +740,11 @@ static void process_downstream_ack(int userid, int down_seq, int down_frag)
 		   ack, happens a lot with ping packets */
 		return;
 
+	if (users[userid].outpacket.sentlen <= 0)
+		/* Current fragment was not sent yet, so this is a stale ack
+		   from before the seqno wrapped around */
+		return;
+
 	/* Received proper ack */
 	users[userid].outpacket.offset += users[userid].outpacket.sentlen;
 	users[userid].outpacket.sentlen = 0;
